@@ -43,6 +43,9 @@ def run(ctx):
     ctx.attempt("check_dispatch", check_dispatch, ctx, lib)
     ctx.attempt("check_parse_index", check_parse_index, ctx, lib)
     ctx.attempt("check_lexer", check_lexer, ctx, lib)
+    # every token test above is read as a test of the token's kind: `==` on Token must be the derived one (shared with C04)
+    from .c04 import check_token_equality
+    ctx.attempt("check_token_equality", check_token_equality, ctx, lib)
 
 
 # =============================================================================================
